@@ -49,8 +49,15 @@ Record SCtx (g : ghost) (w : world) (e : nat) (en : StateModel.entry) : Prop := 
   sc_inv : Inv g w;
   sc_e : (2 <= e)%nat;
   sc_en : nth_error (ents (w_st w)) e = Some en;
-  sc_ready : ReadyAll (real_evl w) w e en
+  sc_ready : ReadyAll (real_evl w) w e en;
+  sc_shape : forall sd, s_oid (gs en sd) <> None -> ShapeS (gs en sd)
 }.
+
+Lemma Seen_of_shape w e en : (forall sd, s_oid (gs en sd) <> None -> ShapeS (gs en sd)) -> forall sd, Seen w e en sd.
+Proof. intros H sd Ho _ _. apply (H sd Ho). Qed.
+
+Lemma other_side' sd s : sd <> s -> sd = negb s.
+Proof. destruct sd, s; intros H; try reflexivity; contradiction. Qed.
 
 (* B1: the side does not need sync and its stamp is cleared *)
 Lemma clear_changed_pres g w e en side w1 :
@@ -58,7 +65,7 @@ Lemma clear_changed_pres g w e en side w1 :
   AlgoModel.set_changed w e side (CNum 0) = ROk w1 ->
   SCtx g w1 e (clr en side).
 Proof.
-  intros [I He Hn Hr] Hns Hc H.
+  intros [I He Hn Hr Hsh] Hns Hc H.
   pose proof (i_ents _ _ _ I e en He Hn) as EO.
   destruct (set_changed_w w (i_cfg _ _ _ I) (i_tape _ _ _ I) e side (CNum 0) en Hn) as (w' & H' & W').
   rewrite H' in H. injection H as <-.
@@ -70,7 +77,7 @@ Proof.
   assert (Hen1: nth_error (ents (w_st w')) e = Some (clr en side)) by (rewrite SA; eapply nth_list_upd_eq; eauto).
   assert (HI: Inv g w').
   { unfold Inv. apply (InvP_ext (real_evl w)); [intros sd0; unfold real_evl; rewrite Hprov; reflexivity|].
-    apply (inv_clear (real_evl w) g w w' e en (clr en side) side I He Hn (fun _ => Hr)).
+    apply (inv_clear (real_evl w) g w w' e en (clr en side) side I He Hn (fun _ => Hr) (fun _ => Hsh)).
     - (* justification from "does not need sync" *)
       intros k ob cs Ho Hob Hpd Hfr Hd Hg.
       rewrite (needs_sync_eq (real_evl w) g w e en EO) in Hns. rewrite Hc, Ho in Hns. cbn [tstr ostr_k andb] in Hns.
@@ -98,7 +105,10 @@ Proof.
     - exact SJ.
     - intros; apply Hgx.
     - intros; rewrite Hgx; reflexivity. }
-  constructor; [exact HI|exact He|exact Hen1|].
+  constructor; [exact HI|exact He|exact Hen1| |].
+  2:{ intros sd0 Hoid. rewrite oid_clr in Hoid. unfold clr. destruct (Bool.bool_dec sd0 side) as [->|Hne].
+      - rewrite gs_ss_same. apply (Hsh side Hoid).
+      - rewrite (other_side' _ _ Hne) in *. rewrite gs_ss_other. apply (Hsh _ Hoid). }
   intros sd0 k ob Ho Hob. rewrite oid_clr in Ho. unfold obj_at in Hob. rewrite Hprov in Hob.
   assert (Hp: pd (real_evl w') sd0 k = pd (real_evl w) sd0 k) by (unfold pd, real_evl; rewrite Hprov; reflexivity).
   rewrite Hp. destruct (Hr sd0 k ob Ho Hob) as [X|X]; [left; exact X|right].
@@ -110,6 +120,7 @@ Qed.
 (* finished(side, sync) on an entry whose fields need no further change *)
 Lemma finished_pres0 g w e en side w' :
   Inv g w -> (2 <= e)%nat -> nth_error (ents (w_st w)) e = Some en -> (is_discarded (e_ign en) = false -> ReadyAll (real_evl w) w e en) ->
+  (is_discarded (e_ign en) = false -> forall sd0, s_oid (gs en sd0) <> None -> ShapeS (gs en sd0)) ->
   (forall k ob cs, s_oid (gs en side) = Some (ostr_k k) -> obj_at w side k = Some ob -> pd (real_evl w) side k = false ->
      freshP (gs en side) ob -> is_discarded (e_ign en) = false -> g_get k (g_of g side) = Some cs ->
      s_oid (gs en (negb side)) <> None /\ ProvModel.o_exists ob = true /\ s_hash (gs en side) = s_shash (gs en side)) ->
@@ -118,7 +129,7 @@ Lemma finished_pres0 g w e en side w' :
   (forall sd0, prov_of w' sd0 = prov_of w sd0) /\
   exists en', nth_error (ents (w_st w')) e = Some en' /\ same_but_prio (clr en side) en'.
 Proof.
-  intros I He Hn Hr Hjust H.
+  intros I He Hn Hr Hshp Hjust H.
   pose proof (i_ents _ _ _ I e en He Hn) as EO.
   assert (HfL: s_force (e_l en) = false) by apply (ent_force (real_evl w) g w e en EO false).
   assert (HfR: s_force (e_r en) = false) by apply (ent_force (real_evl w) g w e en EO true).
@@ -128,7 +139,7 @@ Proof.
   rewrite H2 in H. injection H as <-.
   split; [|split; [exact Hx|split; [intros sd0; rewrite Hxe; reflexivity|split; [exact Hprov|exists en'; split; assumption]]]].
   unfold Inv. apply (InvP_ext (real_evl w)); [intros sd0; unfold real_evl; rewrite Hprov; reflexivity|].
-  apply (inv_clear (real_evl w) g w w2 e en en' side I He Hn Hr Hjust Wcfg Hprov Hen' Ssbp Hlen Hoth Hcs Hmem Hnow Hlast Htape HJ Hx).
+  apply (inv_clear (real_evl w) g w w2 e en en' side I He Hn Hr Hshp Hjust Wcfg Hprov Hen' Ssbp Hlen Hoth Hcs Hmem Hnow Hlast Htape HJ Hx).
   intros sd0. rewrite Hxe. reflexivity.
 Qed.
 
@@ -140,8 +151,8 @@ Lemma finished_pres g w e en side w' :
   AlgoModel.finished w e side = ROk w' ->
   Inv g w' /\ (forall x sd0, x <> e -> getx w' x sd0 = getx w x sd0) /\ (forall sd0, x_tfile (getx w' e sd0) = None).
 Proof.
-  intros [I He Hn Hr] Hjust H.
-  destruct (finished_pres0 g w e en side w' I He Hn (fun _ => Hr) Hjust H) as (A & B & C & _). auto.
+  intros [I He Hn Hr Hsh] Hjust H.
+  destruct (finished_pres0 g w e en side w' I He Hn (fun _ => Hr) (fun _ => Hsh) Hjust H) as (A & B & C & _). auto.
 Qed.
 
 (* ------------------------------------------------------------------ a provider call on side t plus changes of entry e *)
@@ -176,6 +187,7 @@ Lemma inv_prov_step g w w3 e en3 t kt ob' ev :
      exists xn', nth_error (ents (w_st w3)) x = Some xn' /\ same_but_prio xn xn') ->
   (forall x, x <> e -> set_mem x (cset (w_st w3)) = set_mem x (cset (w_st w))) ->
   (flagged en3 = true -> set_mem e (cset (w_st w3)) = true) ->
+  (set_mem e (cset (w_st w3)) = true -> flagged en3 = true) ->
   now (w_st w) <= now (w_st w3) -> lastch (w_st w3) <= now (w_st w3) ->
   maxchg en3 <= now (w_st w3) + 1 -> (forall sd, x_lg (getx w3 e sd) <= now (w_st w3) + 1) ->
   tape (w_st w3) = [] -> IdxJ (w_st w3) ->
@@ -183,10 +195,11 @@ Lemma inv_prov_step g w w3 e en3 t kt ob' ev :
   (forall sd o, (exists en, nth_error (ents (w_st w)) e = Some en /\ s_oid (gs en sd) = Some o) -> s_oid (gs en3 sd) = Some o) ->
   s_oid (gs en3 t) = Some (ostr_k kt) ->
   EntOk (real_evl w3) g w3 e en3 ->
+  (forall sd, Seen w3 e en3 sd) ->
   Inv g w3.
 Proof.
   intros I He Hcfg Hpo HW Hcur Hlog Hevo Hkt2 Hob' Hevk Hevx Hkf Hpath Hobj Hdead Hlen Huniq Hgd
-         Hen3 Hlen3 Hoth Hcs Hcse Hnow Hlast Hmax Hlg Htape Hidx Hx Hoids Hokt HE.
+         Hen3 Hlen3 Hoth Hcs Hcse Hcsx Hnow Hlast Hmax Hlg Htape Hidx Hx Hoids Hokt HE Hseen.
   assert (Hev: ProvModel.events_from (prov_of w3 t) = ProvModel.events_from (prov_of w t) ++ [ev]).
   { apply events_from_app; [exact Hcur|exact Hlog|apply (pw_cursor _ (i_pwf _ _ _ I t))]. }
   assert (Hobjo: forall k, obj_at w3 (negb t) k = obj_at w (negb t) k) by (intros; unfold obj_at; rewrite Hpo; reflexivity).
@@ -223,6 +236,7 @@ Proof.
   - exact Hoth.
   - exact Hcs.
   - exact Hcse.
+  - exact Hcsx.
   - exact Hnow.
   - exact Hlast.
   - exact Hmax.
@@ -271,6 +285,7 @@ Proof.
       * exists ob, r. rewrite Hobj by exact Hk. auto.
     + assert (sd0 = negb t) by (destruct sd0, t; try reflexivity; contradiction). subst sd0. exists ob, r. rewrite Hobjo. auto.
   - exact HE.
+  - exact Hseen.
 Qed.
 
 (* ------------------------------------------------------------------ download_changed *)
@@ -430,7 +445,7 @@ Lemma create_pres g w e en s k ob cs n w3 calls rs :
     (forall x sd0, x <> e -> getx w3 x sd0 = getx w x sd0) /\ (forall sd0, x_lg (getx w3 e sd0) = x_lg (getx w e sd0)) /\
     (forall sd0 k0 cs0, g_get k0 (g_of g sd0) = Some cs0 -> obj_at w3 sd0 k0 = obj_at w sd0 k0).
 Proof.
-  intros [I He Hn Hr] Hign Ho Hob Hl Hg Hot Hpath Hnok Hsp Hc Htf H.
+  intros [I He Hn Hr Hsh] Hign Ho Hob Hl Hg Hot Hpath Hnok Hsp Hc Htf H.
   set (t := negb s) in *. set (p := [root_name t; n]).
   pose proof (i_cfg _ _ _ I) as Hcfg. pose proof (i_ents _ _ _ I e en He Hn) as EO.
   destruct (tname_world_facts w e s en (pstr [root_name s; n]) Htf) as (TA & TB & TC & TD & TF & TG & TH).
@@ -525,6 +540,10 @@ Proof.
     rewrite Hs' at 1. rewrite gs_ss_other, gs_hash_upd_other, gs_prio0, !gs_ss_other, <- Hs'. reflexivity. }
   assert (Hf_i: e_ign en3 = INone).
   { unfold en3. rewrite ign_ss, ign_hash_upd, ign_prio0, !ign_ss. unfold end_, enc, enb, ena. rewrite !ign_ss. exact Hign. }
+  assert (Hsh3: forall sd0, s_oid (gs en3 sd0) <> None -> ShapeS (gs en3 sd0)).
+  { intros sd0 Hoid. destruct (Bool.bool_dec sd0 s) as [->|Hne].
+    - rewrite Hf_s in *. cbn [w_spath w_shash s_oid] in Hoid. apply (Hsh s Hoid).
+    - assert (sd0 = t) by (unfold t; destruct sd0, s; try reflexivity; contradiction). subst sd0. rewrite Hf_t. left. split; [reflexivity|discriminate]. }
   assert (H4cfg: w_cfg w4 = w_cfg w) by (destruct W24 as (A & _); rewrite A, H2cfg; symmetry; exact Hcfg).
   assert (H4ps: prov_of w4 s = prov_of w s).
   { rewrite (weff_prov _ _ _ _ _ s W24). assert (X: prov_of w2 s = prov_of w1 s) by (unfold w2, with_prov, t; destruct s; reflexivity).
@@ -609,7 +628,7 @@ Proof.
         * intros _ _. repeat (split; [reflexivity|]). exists k, ob. split; [exact Ho|]. split; [rewrite Hobs; exact Hob|].
           split; [rewrite Hpath; reflexivity|congruence]. }
   split.
-  { constructor; [|exact He|exact Hen4|].
+  { constructor; [|exact He|exact Hen4| |exact Hsh3].
     - apply (inv_prov_step g w w4 e en3 t k' o' (create_ev o') I He H4cfg).
       + assert (Hs': negb t = s) by (unfold t; destruct s; reflexivity). rewrite Hs'. exact H4ps.
       + rewrite H4pt. exact HWv.
@@ -636,6 +655,7 @@ Proof.
         assert (Hcc2: (tchg (s_chg (gs end_ t)) || tchg (s_chg (gs end_ (negb t))))%bool = true).
         { assert (Hs': negb t = s) by (unfold t; destruct s; reflexivity). rewrite Hs', Hgs. cbn [w_spath w_shash s_chg]. rewrite Hc. apply orb_true_r. }
         rewrite Hcc2, Nat.eqb_refl. reflexivity.
+      + intros _. apply (flagged_side en3 s); rewrite Hf_s; cbn [w_spath w_shash w_hash w_ex s_chg s_oid]; [exact Hc|rewrite Ho; reflexivity].
       + exact SC.
       + rewrite SD. pose proof (i_clk _ _ _ I). lia.
       + destruct (i_clke _ _ _ I e en Hn) as (Hmx & _). unfold maxchg, chgv in *.
@@ -653,6 +673,7 @@ Proof.
         assert (sd0 = t) by (unfold t; destruct sd0, s; try reflexivity; contradiction). subst sd0. congruence.
       + rewrite Hf_t. reflexivity.
       + exact EO3.
+      + apply (Seen_of_shape _ _ _ Hsh3).
     - intros sd0 k0 ob0 Ho0 Hob0. destruct (Bool.bool_dec sd0 s) as [Heq|Hne].
       + subst sd0. rewrite Hf_s in Ho0. cbn [w_spath w_shash s_oid] in Ho0. rewrite Hobs in Hob0.
         rewrite Hpds, Hf_s. destruct (Hr s k0 ob0 Ho0 Hob0) as [X|X]; [left; exact X|right; apply freshP_markers; exact X].
@@ -691,7 +712,7 @@ Lemma upload_pres g w e en s k ob cs k' ob' n w3 calls up :
     (forall x sd0, x <> e -> getx w3 x sd0 = getx w x sd0) /\ (forall sd0, x_lg (getx w3 e sd0) = x_lg (getx w e sd0)) /\
     (forall sd0 k0 cs0, g_get k0 (g_of g sd0) = Some cs0 -> obj_at w3 sd0 k0 = obj_at w sd0 k0).
 Proof.
-  intros [I He Hn Hr] Hign Ho Hob Hl Hg Hot Hobt Hpath Hsp Hc Htf H.
+  intros [I He Hn Hr Hsh] Hign Ho Hob Hl Hg Hot Hobt Hpath Hsp Hc Htf H.
   set (t := negb s) in *.
   pose proof (i_cfg _ _ _ I) as Hcfg. pose proof (i_ents _ _ _ I e en He Hn) as EO.
   assert (Hndisc: is_discarded (e_ign en) = false) by (rewrite Hign; reflexivity).
@@ -776,6 +797,11 @@ Proof.
   assert (Hf_s: gs en3 s = w_spath (w_shash (gs en s) (s_hash (gs en s))) (s_path (gs en s))).
   { unfold en3. rewrite gs_ss_neq by (intros X; apply Hst; symmetry; exact X). exact Hgs_d. }
   assert (Hf_i: e_ign en3 = INone) by (unfold en3, end_, enc, enb, ena; rewrite !ign_ss; exact Hign).
+  assert (Hsh3: forall sd0, s_oid (gs en3 sd0) <> None -> ShapeS (gs en3 sd0)).
+  { intros sd0 Hoid. destruct (Bool.bool_dec sd0 s) as [->|Hne].
+    - rewrite Hf_s in *. cbn [w_spath w_shash s_oid] in Hoid. apply (Hsh s Hoid).
+    - assert (sd0 = t) by (unfold t; destruct sd0, s; try reflexivity; contradiction). subst sd0. rewrite Hf_t. left.
+      cbn [w_ex w_shash w_hash s_ex s_path]. split; [reflexivity|rewrite M6; discriminate]. }
   assert (H4cfg: w_cfg w4 = w_cfg w) by (destruct W24 as (A & _); rewrite A, H2cfg; symmetry; exact Hcfg).
   assert (H4ps: prov_of w4 s = prov_of w s).
   { rewrite (weff_prov _ _ _ _ _ s W24). assert (X: prov_of w2 s = prov_of w1 s) by (unfold w2, with_prov, t; destruct s; reflexivity).
@@ -855,7 +881,7 @@ Proof.
           -- intros _ _. split; [exact M1|]. split; [reflexivity|]. split; [reflexivity|]. split; [reflexivity|]. split; [exact M5|]. split; [exact M6|].
              exists k, ob. split; [exact Ho|]. split; [rewrite Hobs; exact Hob|]. split; [exact M9|exact M10]. }
   split.
-  { constructor; [|exact He|exact Hen4|].
+  { constructor; [|exact He|exact Hen4| |exact Hsh3].
     - apply (inv_prov_step g w w4 e en3 t k' ob'' ev I He H4cfg).
       + assert (Hs': negb t = s) by (unfold t; destruct s; reflexivity). rewrite Hs'. exact H4ps.
       + rewrite H4pt. exact HWv.
@@ -882,6 +908,7 @@ Proof.
         assert (Hcc2: (tchg (s_chg (gs end_ t)) || tchg (s_chg (gs end_ (negb t))))%bool = true).
         { assert (Hs': negb t = s) by (unfold t; destruct s; reflexivity). rewrite Hs', Hgs_d. cbn [w_spath w_shash s_chg]. rewrite Hc. apply orb_true_r. }
         rewrite Hcc2, Nat.eqb_refl. reflexivity.
+      + intros _. apply (flagged_side en3 s); rewrite Hf_s; cbn [w_spath w_shash w_hash w_ex s_chg s_oid]; [exact Hc|rewrite Ho; reflexivity].
       + exact SC.
       + rewrite SD. pose proof (i_clk _ _ _ I). lia.
       + destruct (i_clke _ _ _ I e en Hn) as (Hmx & _). unfold maxchg, chgv in *.
@@ -899,6 +926,7 @@ Proof.
         assert (sd0 = t) by (unfold t; destruct sd0, s; try reflexivity; contradiction). subst sd0. rewrite Hf_t. exact Ho0.
       + rewrite Hf_t. exact Hot.
       + exact EO3.
+      + apply (Seen_of_shape _ _ _ Hsh3).
     - intros sd0 k0 ob0 Ho0 Hob0. destruct (Bool.bool_dec sd0 s) as [Heq|Hne].
       + subst sd0. rewrite Hf_s in Ho0. cbn [w_spath w_shash s_oid] in Ho0. rewrite Hobs in Hob0.
         rewrite Hpds, Hf_s. destruct (Hr s k0 ob0 Ho0 Hob0) as [X|X]; [left; exact X|right; apply freshP_markers; exact X].
@@ -948,7 +976,7 @@ Lemma delete_pres g w e en s k w3 calls rs :
     (forall x sd0, getx w3 x sd0 = getx w x sd0) /\
     (forall sd0 k0 cs0, g_get k0 (g_of g sd0) = Some cs0 -> obj_at w3 sd0 k0 = obj_at w sd0 k0).
 Proof.
-  intros [I He Hn Hr] Hign Hex Ho H.
+  intros [I He Hn Hr Hsh] Hign Hex Ho H.
   set (t := negb s) in *.
   pose proof (i_cfg _ _ _ I) as Hcfg. pose proof (i_tape _ _ _ I) as Htape. pose proof (i_ents _ _ _ I e en He Hn) as EO.
   assert (Hndisc: is_discarded (e_ign en) = false) by (rewrite Hign; reflexivity).
@@ -1004,6 +1032,10 @@ Proof.
     assert (Hf_t: gs en3 t = w_chg (w_ex (gs en t) ExTrashed) CFalse).
     { unfold en3. rewrite gs_disc2. unfold enb. rewrite gs_ss_same.
       unfold ena. rewrite gs_ss_neq by exact Hst. reflexivity. }
+    assert (Hsh3: forall sd0, s_oid (gs en3 sd0) <> None -> ShapeS (gs en3 sd0)).
+    { intros sd0 Hoid. right. destruct (Bool.bool_dec sd0 s) as [->|Hne].
+      - rewrite Hf_s. cbn [w_chg w_spath s_ex]. rewrite Hex. reflexivity.
+      - assert (sd0 = t) by (unfold t; destruct sd0, s; try reflexivity; contradiction). subst sd0. rewrite Hf_t. reflexivity. }
     assert (H4cfg: w_cfg wc = w_cfg w) by (destruct W24 as (A & _); rewrite A, H2cfg; symmetry; exact Hcfg).
     assert (H4ps: prov_of wc s = prov_of w s).
     { rewrite (weff_prov _ _ _ _ _ s W24). unfold w2, with_prov, t. destruct s; reflexivity. }
@@ -1041,7 +1073,7 @@ Proof.
           exists k', ob''. split; [reflexivity|]. split; [exact Hobt4|]. split; [exact Hk2'|]. split; [reflexivity|].
           split; [left; exact Hpdt|]. split; [right; exact M6|right; exact M5]. }
     split.
-    { constructor; [|exact He|exact Hen4|].
+    { constructor; [|exact He|exact Hen4| |exact Hsh3].
       - apply (inv_prov_step g w wc e en3 t k' ob'' ev I He H4cfg).
         + assert (Hs': negb t = s) by (unfold t; destruct s; reflexivity). rewrite Hs'. exact H4ps.
         + rewrite H4pt. exact HWv.
@@ -1064,6 +1096,7 @@ Proof.
         + intros x xn Hne Hxn. exists xn. split; [rewrite SA, nth_list_upd_neq by congruence; exact Hxn|apply same_but_prio_refl].
         + intros x Hne. rewrite SB. destruct (Nat.eqb_spec x e); [contradiction|reflexivity].
         + intros Hfl. exfalso. unfold flagged, en3 in Hfl. simpl in Hfl. discriminate.
+        + intros Hm. rewrite SB, Nat.eqb_refl in Hm. discriminate.
         + exact SC.
         + rewrite SD. pose proof (i_clk _ _ _ I). lia.
         + unfold maxchg, chgv, en3. simpl. apply N.le_0_l.
@@ -1076,6 +1109,7 @@ Proof.
           assert (sd0 = t) by (unfold t; destruct sd0, s; try reflexivity; contradiction). subst sd0. rewrite Hf_t. exact Ho0.
         + rewrite Hf_t. exact Eot.
         + exact EO3.
+        + apply (Seen_of_shape _ _ _ Hsh3).
       - intros sd0 k0 ob0 Ho0 Hob0. destruct (Bool.bool_dec sd0 s) as [Heq|Hne].
         + subst sd0. rewrite Hf_s in Ho0. cbn [w_chg w_spath s_oid] in Ho0. rewrite Hobs in Hob0.
           rewrite Hpds, Hf_s. destruct (Hr s k0 ob0 Ho0 Hob0) as [X|X]; [left; exact X|right; exact X].
@@ -1104,6 +1138,10 @@ Proof.
     { unfold en3. rewrite gs_disc2. unfold enb. rewrite gs_ss_neq by (intros X; apply Hst; symmetry; exact X). reflexivity. }
     assert (Hf_t: gs en3 t = w_chg (w_ex (gs en t) ExTrashed) CFalse).
     { unfold en3. rewrite gs_disc2. unfold enb. rewrite gs_ss_same. reflexivity. }
+    assert (Hsh3: forall sd0, s_oid (gs en3 sd0) <> None -> ShapeS (gs en3 sd0)).
+    { intros sd0 Hoid. right. destruct (Bool.bool_dec sd0 s) as [->|Hne].
+      - rewrite Hf_s. cbn [w_chg s_ex]. rewrite Hex. reflexivity.
+      - assert (sd0 = t) by (unfold t; destruct sd0, s; try reflexivity; contradiction). subst sd0. rewrite Hf_t. reflexivity. }
     assert (Hprov: forall sd0, prov_of wc sd0 = prov_of w sd0) by (intros; apply (weff_prov _ _ _ _ _ sd0 W24)).
     assert (Hgx: forall x sd0, getx wc x sd0 = getx w x sd0) by (intros; apply (weff_getx _ _ _ _ _ x sd0 W24)).
     assert (Hobj: forall sd0 k0, obj_at wc sd0 k0 = obj_at w sd0 k0) by (intros; unfold obj_at; rewrite Hprov; reflexivity).
@@ -1126,7 +1164,7 @@ Proof.
           split; [apply (ent_file (real_evl w) g w e en EO t)|]. split; [apply (ent_force (real_evl w) g w e en EO t)|].
           split; [intros _; auto|]. intros o0 Ho0. congruence. }
     split.
-    { constructor; [|exact He|exact Hen4|].
+    { constructor; [|exact He|exact Hen4| |exact Hsh3].
       - unfold Inv. apply (InvP_ext (real_evl w)); [intros sd0; unfold real_evl; rewrite Hprov; reflexivity|].
         apply (inv_master (real_evl w) (real_evl w) g g w wc e en3 I).
         + rewrite W4cfg. reflexivity.
@@ -1139,6 +1177,7 @@ Proof.
         + intros x xn Hne Hxn. exists xn. split; [rewrite SA, nth_list_upd_neq by congruence; exact Hxn|apply same_but_prio_refl].
         + intros x Hne. rewrite SB. destruct (Nat.eqb_spec x e); [contradiction|reflexivity].
         + intros Hfl. exfalso. unfold flagged, en3 in Hfl. simpl in Hfl. discriminate.
+        + intros Hm. rewrite SB, Nat.eqb_refl in Hm. discriminate.
         + exact SC.
         + rewrite SD. pose proof (i_clk _ _ _ I). lia.
         + unfold maxchg, chgv, en3. simpl. apply N.le_0_l.
@@ -1162,6 +1201,7 @@ Proof.
         + intros sd0 k0 cs0 Hg0. rewrite Hobj. apply (i_ghost _ _ _ I sd0 k0 cs0 Hg0).
         + apply (EntOk_frame (real_evl wc) (real_evl w) g g wc wc e en3 EO3); [reflexivity|].
           intros sd0 k0 Ho0. split; [reflexivity|]. split; [rewrite Hpd; auto|reflexivity].
+        + apply (Seen_of_shape _ _ _ Hsh3).
       - intros sd0 k0 ob0 Ho0 Hob0. destruct (Bool.bool_dec sd0 s) as [Heq|Hne].
         + subst sd0. rewrite Hf_s in Ho0. cbn [w_chg s_oid] in Ho0. rewrite Hobj in Hob0.
           rewrite Hpd, Hf_s. destruct (Hr s k0 ob0 Ho0 Hob0) as [X|X]; [left; exact X|right; exact X].
@@ -1222,11 +1262,14 @@ Lemma tchg_succ c : tchg (CNum (c + 1)) = true.
 Proof. unfold tchg. destruct (c + 1)%N eqn:E1; [lia|reflexivity]. Qed.
 
 (* SyncEntry.punt: priority one up, every stamp of the entry one unit later *)
+Lemma ShapeS_ext x y : s_ex x = s_ex y -> s_path x = s_path y -> ShapeS y -> ShapeS x.
+Proof. unfold ShapeS. intros -> ->. auto. Qed.
+
 Lemma punt_pres g w e en w' :
   SCtx g w e en -> maxchg en <= now (w_st w) -> punt w e = ROk w' ->
   Inv g w' /\ (forall x sd0, getx w' x sd0 = getx w x sd0).
 Proof.
-  intros [I He Hn Hr] Htight H.
+  intros [I He Hn Hr Hsh] Htight H.
   pose proof (i_cfg _ _ _ I) as Hcfg. pose proof (i_tape _ _ _ I) as Htape. pose proof (i_ents _ _ _ I e en He Hn) as EO.
   unfold punt, get_e, lift, get_ent in H. rewrite Hn in H. cbn [rbind] in H.
   destruct (set_priority_w w Hcfg Htape e (e_prio en + PRIO_ONE) en Hn) as (w2 & H2 & W2). rewrite H2 in H. injection H as <-.
@@ -1296,6 +1339,19 @@ Proof.
     destruct (flagged_prog _ _ _ _ _ Pb) as [(Hmb & Hfb)|Hmb]; rewrite Hmb; cbn [mcomp]; [|rewrite Nat.eqb_refl; reflexivity].
     destruct (flagged_prog _ _ _ _ _ Pa) as [(Hma & Hfa)|Hma]; rewrite Hma; [|rewrite Nat.eqb_refl; reflexivity].
     apply (i_csc _ _ _ I e en Hn). congruence.
+  - intros Hm. rewrite <- (sbp_flagged _ _ S3). rewrite SB in Hm.
+    pose proof Pb as (Pbo & _ & Pboid & _ & _ & _ & Pbc). pose proof Pa as (Pao & _ & Paoid & _ & _ & _ & Pac). cbn [negb] in Pbo, Pao.
+    destruct Pbc as [(Hcb & Hmb)|(tb & Hcb & Htb & _ & _ & Hmb)].
+    + destruct Pac as [(Hca & Hma)|(ta & Hca & Hta & _ & _ & Hma)].
+      * rewrite Hma, Hmb in Hm. cbn [mcomp] in Hm. pose proof (i_cse _ _ _ I e en Hn Hm) as F. unfold flagged in F.
+        change (e_l en) with (gs en false) in F. change (e_r en) with (gs en true) in F.
+        apply orb_prop in F as [F|F]; apply andb_prop in F as [F1 F2].
+        -- apply (flagged_side enb false); rewrite Pbo; [rewrite Hca; exact F1|rewrite Paoid; exact F2].
+        -- apply (flagged_side enb true); [rewrite Hcb, Pao; exact F1|rewrite Pboid, Pao; exact F2].
+      * assert (Hx: tchg (s_chg (gs enb false)) = true) by (rewrite Pbo, Hca; exact Hta).
+        apply (flagged_side enb false); [exact Hx|apply (ent_chg_oid (real_evl w) g w e enb EOb false Hx)].
+    + assert (Hx: tchg (s_chg (gs enb true)) = true) by (rewrite Hcb; exact Htb).
+      apply (flagged_side enb true); [exact Hx|apply (ent_chg_oid (real_evl w) g w e enb EOb true Hx)].
   - exact SC.
   - rewrite SD. pose proof (i_clk _ _ _ I). lia.
   - rewrite <- (sbp_maxchg _ _ S3). lia.
@@ -1316,6 +1372,11 @@ Proof.
   - apply (EntOk_sbp _ _ _ _ enb en3 S3).
     apply (EntOk_frame (real_evl w) (real_evl w) g g w w2 e enb EOb); [intros; rewrite Hgx; reflexivity|].
     intros sd0 k0 Ho0. split; [apply Hobj|]. split; [auto|reflexivity].
+  - apply Seen_of_shape. intros sd0 Hoid. rewrite Hoid3 in Hoid. rewrite <- (sbp_gs _ _ sd0 S3).
+    pose proof Pa as (Pao & _). pose proof Pb as (Pbo & _). cbn [negb] in Pao, Pbo.
+    destruct sd0.
+    + apply (ShapeS_ext _ (gs en true)); [rewrite B2, Pao; reflexivity|rewrite B4, Pao; reflexivity|apply (Hsh true Hoid)].
+    + rewrite Pbo. apply (ShapeS_ext _ (gs en false)); [exact A2|exact A4|apply (Hsh false Hoid)].
 Qed.
 
 (* download failed: the object is gone, exists = MISSING *)
@@ -1327,7 +1388,7 @@ Lemma missing_pres g w e en s k ob p w2 :
   now (w_st w) <= now (w_st w2) /\ (forall x sd0, x <> e -> getx w2 x sd0 = getx w x sd0) /\ x_tfile (getx w2 e s) = None /\
   getx w2 e (negb s) = getx w e (negb s).
 Proof.
-  intros [I He Hn Hr] Ho Hob Hdead Htf W2.
+  intros [I He Hn Hr Hsh] Ho Hob Hdead Htf W2.
   destruct (tname_world_facts w e s en p Htf) as (TA & TB & TC & TD & TF & TG & TH).
   set (w0 := tname_world w e s en p) in *. set (en' := ss en s (w_ex (gs en s) ExMissing)).
   pose proof (i_ents _ _ _ I e en He Hn) as EO.
@@ -1356,8 +1417,12 @@ Proof.
       + intros Hd cs Hcs. destruct (fo_owner _ _ _ _ _ _ _ _ FO Hd cs Hcs) as (P1 & _ & _ & P4 & _). destruct (fo_owner2 _ _ _ _ _ _ _ _ FO Hd cs Hcs) as (_ & P6). auto.
       + intros Hd Hcs. destruct (fo_mirror _ _ _ _ _ _ _ _ FO Hd Hcs) as (Ml & _). congruence.
     - intros Hno. congruence. }
+  assert (Hsh2: forall sd0, s_oid (gs en' sd0) <> None -> ShapeS (gs en' sd0)).
+  { intros sd0 Hoid. unfold en' in *. destruct (Bool.bool_dec sd0 s) as [->|Hne].
+    - rewrite gs_ss_same. right. reflexivity.
+    - rewrite (other_side' _ _ Hne) in *. rewrite gs_ss_other in *. apply (Hsh _ Hoid). }
   split.
-  { constructor; [|exact He|exact Hen2|].
+  { constructor; [|exact He|exact Hen2| |exact Hsh2].
     - unfold Inv. apply (InvP_ext (real_evl w)); [intros sd0; unfold real_evl; rewrite Hprov; reflexivity|].
       apply (inv_master (real_evl w) (real_evl w) g g w w2 e en' I).
       + rewrite Wcfg. exact TA.
@@ -1370,6 +1435,7 @@ Proof.
       + intros x xn Hne Hxn. exists xn. split; [rewrite SA, nth_list_upd_neq by congruence; exact Hxn|apply same_but_prio_refl].
       + intros x Hne. rewrite SB. reflexivity.
       + intros Hfl. rewrite SB. apply (i_csc _ _ _ I e en Hn). rewrite <- Hfl. unfold flagged, en'. destruct en as [l r i q], s; reflexivity.
+      + intros Hm. rewrite SB in Hm. pose proof (i_cse _ _ _ I e en Hn Hm) as F. rewrite <- F. unfold flagged, en'. destruct en as [l r i q], s; reflexivity.
       + exact SC.
       + rewrite SD. pose proof (i_clk _ _ _ I). lia.
       + rewrite Hmax. destruct (i_clke _ _ _ I e en Hn) as (X & _). lia.
@@ -1392,6 +1458,7 @@ Proof.
         * exists x, xn. split; [rewrite SA, nth_list_upd_neq by congruence; exact Hxn|exact Hox].
       + intros sd0 k0 cs0 Hg0. rewrite Hobj. apply (i_ghost _ _ _ I sd0 k0 cs0 Hg0).
       + exact EO2.
+      + apply (Seen_of_shape _ _ _ Hsh2).
     - intros sd0 k0 ob0 Ho0 Hob0. rewrite Hobj in Hob0. rewrite Hpd. unfold en' in *.
       destruct (Bool.bool_dec sd0 s) as [Heq|Hne].
       + subst sd0. rewrite gs_ss_same in *. cbn [w_ex s_oid] in Ho0. assert (k0 = k) by (apply ostr_k_inj; congruence). subst k0. assert (ob0 = ob) by congruence. subst ob0.
